@@ -48,6 +48,7 @@ type stressIter struct {
 	n         atomic.Int32
 	orderViol atomic.Pointer[string]
 	deadlock  atomic.Pointer[string] // set by the monitor
+	shutReq   atomic.Bool            // the harness has called Shutdown/ShutdownAndWait
 }
 
 func (w *swk) release() { w.rel.Do(func() { close(w.early) }) }
@@ -88,9 +89,17 @@ func monitor(c *vf.Ctx) {
 			continue
 		}
 		last = ""
-		shutParked := false
+		// the goroutine performing the shutdown: identified by an exported frame
+		// ((*OrderedDaemon).Shutdown / .ShutdownAndWait / Shutdown.gowrap) plus state and stdlib frame
+		shutParked, callers := false, 0
 		for _, g := range gs {
-			if g.Has("daemon.(*OrderedDaemon).stopWorkers") && g.Has("sync.(*WaitGroup).Wait") {
+			if g.State != "running" && strings.Contains(g.Raw, "hive.go/app/daemon.") {
+				callers++ // any goroutine inside (or created by) the daemon package
+			}
+			if !g.Has(exportedShutdownFrame) {
+				continue
+			}
+			if strings.HasPrefix(g.State, "semacquire") && g.Has("sync.(*WaitGroup).Wait") {
 				shutParked = true
 			}
 		}
@@ -105,20 +114,38 @@ func monitor(c *vf.Ctx) {
 				leaked = append(leaked, w)
 			}
 		}
-		if len(leaked) == 0 || !shutParked {
+		dump := func() string {
 			var d strings.Builder
 			for _, g := range gs {
 				d.WriteString(g.Raw + "\n\n")
 			}
-			c.Violation("hang:stress-quiescent-deadlock", "free-running stress: every goroutine is parked and no un-cancelled worker explains it", replayRec{Mode: "stress", Dump: trunc(d.String(), 8000)})
+			return trunc(d.String(), 8000)
+		}
+		if callers == 0 {
+			// a dead-locked iteration always contains a blocked Shutdown/ShutdownAndWait/BackgroundWorker
+			// caller of the harness; seeing none with an exported frame means the monitor is blind
+			c.Inconclusive("stress monitor: every goroutine is parked but no goroutine inside package hive.go/app/daemon was found; dump: " + trunc(dump(), 1500))
 			c.FlushStats()
 			os.Exit(0)
 		}
+		if len(leaked) == 0 {
+			c.Violation("hang:stress-quiescent-deadlock", "free-running stress: every goroutine is parked inside a Shutdown/ShutdownAndWait call although no started worker is left un-cancelled", replayRec{Mode: "stress", Dump: dump()})
+			c.FlushStats()
+			os.Exit(0)
+		}
+		if !it.shutReq.Load() {
+			c.Inconclusive("stress monitor: every goroutine is parked before the harness requested a shutdown; dump: " + trunc(dump(), 1500))
+			c.FlushStats()
+			os.Exit(0)
+		}
+		// The verdict needs no goroutine identification: a shutdown was requested, nothing can run
+		// any more, and a started worker's context is not cancelled. Where the shutdown caller is
+		// parked only goes into the message.
 		var names []string
 		for _, w := range leaked {
 			names = append(names, fmt.Sprintf("%s(order %d, kind %s)", w.name, w.order, w.kind))
 		}
-		msg := fmt.Sprintf("free-running: every goroutine of the process is parked; ShutdownAndWait is parked in stopWorkers/WaitGroup.Wait for ever because it waits for accepted worker(s) %v whose context was never cancelled", names)
+		msg := fmt.Sprintf("free-running: shutdown was requested and every goroutine of the process is parked for ever, but the context of accepted, started worker(s) %v was never cancelled (a Shutdown/ShutdownAndWait caller parked in sync.WaitGroup.Wait: %v)", names, shutParked)
 		it.deadlock.CompareAndSwap(nil, &msg)
 		for _, w := range leaked {
 			w.release()
@@ -333,6 +360,7 @@ func stressOne(c *vf.Ctx, seed int64, batch, iter int, race bool) {
 			gosched(lead)
 			t0 := tick()
 			shutCall.CompareAndSwap(0, t0)
+			it.shutReq.Store(true)
 			if wait {
 				d.ShutdownAndWait()
 				t := tick()
